@@ -69,6 +69,9 @@ pub enum Op {
     Empty,
     /// `Some(x) -> None`, `None -> Some(template)`
     Toggle,
+    /// `None -> Some(template with every number set to 0)`: an added optional part whose value
+    /// is neutral for sums / products it may silently take part in (no-op on a `Some`)
+    ToggleZero,
     Count(CountEdit),
 }
 
@@ -79,6 +82,7 @@ impl Op {
             Op::Extend(_) => "extend".into(),
             Op::Empty => "empty".into(),
             Op::Toggle => "toggle".into(),
+            Op::ToggleZero => "toggle-zero".into(),
             Op::Count(c) => match c {
                 CountEdit::Set(_) => "count-set".into(),
                 CountEdit::Pow2(_) => "count-pow2".into(),
@@ -1851,7 +1855,7 @@ enum TargetKind {
 fn kind_of_op(op: &Op) -> TargetKind {
     match op {
         Op::Truncate(_) | Op::Extend(_) | Op::Empty => TargetKind::Array,
-        Op::Toggle => TargetKind::Option,
+        Op::Toggle | Op::ToggleZero => TargetKind::Option,
         Op::Count(_) => TargetKind::Count,
     }
 }
@@ -1958,7 +1962,7 @@ fn apply(schema: &Schema, v: &mut Value, m: &Mutation) -> Option<Applied> {
         items[pick(m.item, items.len())].clone()
     };
     let cls = jsonmut::class_of(&path);
-    let root_copy = if matches!(m.op, Op::Toggle) { Some(v.clone()) } else { None };
+    let root_copy = if matches!(m.op, Op::Toggle | Op::ToggleZero) { Some(v.clone()) } else { None };
     let node = jsonmut::get_mut(v, &path)?;
     let mut length_change = false;
     match &m.op {
@@ -1994,6 +1998,23 @@ fn apply(schema: &Schema, v: &mut Value, m: &Mutation) -> Option<Applied> {
             } else {
                 *node = Value::Null;
             }
+            length_change = true;
+        }
+        Op::ToggleZero => {
+            if !node.is_null() {
+                return None;
+            }
+            fn zero(v: &mut Value) {
+                match v {
+                    Value::Number(_) => *v = Value::from(0u64),
+                    Value::Array(a) => a.iter_mut().for_each(zero),
+                    Value::Object(o) => o.values_mut().for_each(zero),
+                    _ => {}
+                }
+            }
+            let mut t = option_template(root_copy.as_ref().unwrap(), &path)?;
+            zero(&mut t);
+            *node = t;
             length_change = true;
         }
         Op::Count(e) => {
@@ -2346,6 +2367,7 @@ fn op_strategy() -> impl Strategy<Value = Op> {
         3 => (0u8..3).prop_map(Op::Extend),
         2 => Just(Op::Empty),
         2 => Just(Op::Toggle),
+        1 => Just(Op::ToggleZero),
         5 => count.prop_map(Op::Count),
     ]
 }
@@ -2402,6 +2424,7 @@ fn enumerate_all(cfg_idx: usize) -> Vec<Case> {
     for (_cls, paths) in targets(schema, honest, TargetKind::Option) {
         for p in paths {
             out.push(mk(&p, Op::Toggle));
+            out.push(mk(&p, Op::ToggleZero));
         }
     }
     let edits = [
